@@ -655,11 +655,16 @@ void exec_op(World& w, const Op& op) {
       break;
     }
     case kRawSformat: {
-      std::string t = gen_text(uint64_t(op.a[1]), size_t(op.a[0]) % 300);
+      // mostly short texts; one in eight is longer than the 512-byte buffer sformat() formats into: the result may then be
+      // cut (the function documents a maximum size), but it is a prefix of the text and nothing is overrun
+      size_t len = size_t(op.a[0]) % 300; if ((op.a[2] & 7) == 7) len = 400 + size_t(op.a[0]) % 3000;
+      std::string t = gen_text(uint64_t(op.a[1]), len);
       char* p = arena.sformat("%s-%u", t.c_str(), unsigned(op.a[2]));
       if (!p) break;
-      char expect[400]; snprintf(expect, sizeof expect, "%s-%u", t.c_str(), unsigned(op.a[2]));
-      SIM_CHECK(strcmp(p, expect) == 0, "c18:arena-sformat", "sformat() produced '%s', expected '%s'", p, expect);
+      std::string expect = t + "-" + std::to_string(unsigned(op.a[2]));
+      size_t got = strlen(p);
+      if (expect.size() < 500) SIM_CHECK(expect == p, "c18:arena-sformat", "sformat() produced '%s', expected '%s'", p, expect.c_str());
+      else { SIM_CHECK(got <= expect.size() && got >= 255 && memcmp(p, expect.data(), got) == 0, "c18:arena-sformat", "sformat() of a %zu-character text produced %zu characters that are not a prefix of it", expect.size(), got); sim::count("c18.probe.sformat_longer_than_its_buffer"); }
       break;
     }
     case kArenaReset: {
